@@ -149,11 +149,37 @@ def _amplification(spec, iname, cfl, nstep, rng, dirs=None):
     return amp
 
 
-def _judge_twin(ctx, name, err, tol, key, detail, cls, lazy_amp):
+def _at_a_kink(disc, f):
+    """is the start state within one finite-difference step of a KINK of the space operator (a tie in a max / min / minmod: equal and
+    opposite velocities next to equal depths make |uL|+cL == |uR|+cR in the Rusanov speed)?  There the operator has two one-sided
+    derivatives; the library differences forwards, and "forwards" in the mirror image is "backwards" in the original, so the two
+    linearised implicit steps legitimately differ (thorough-tier witness: Jacobian entries 15 % apart).  Decided by comparing the
+    forward with the backward difference quotient, same step as the library's"""
+    try:
+        with probes.quiet(), np.errstate(all="ignore"):
+            r0 = [np.array(x, float) for x in disc.rhs(f)]
+            worst, big = 0.0, 0.0
+            for q in range(len(f.data)):
+                e = float(np.sqrt(np.finfo(float).eps) * (np.sum(np.abs(f.data[q])) / f.data[q].size or 1.0))
+                for i in range(f.data[q].size):
+                    cols = []
+                    for sg in (1.0, -1.0):
+                        g = f.copy(); g.data[q][i] += sg * e
+                        cols.append(np.concatenate([(np.array(x, float) - y) / (sg * e) for x, y in zip(disc.rhs(g), r0)]))
+                    worst = max(worst, float(np.max(np.abs(cols[0] - cols[1])))); big = max(big, float(np.max(np.abs(cols[0]))))
+        return bool(worst > 1e-3 * big)
+    except Exception:
+        return False
+
+
+def _judge_twin(ctx, name, err, tol, key, detail, cls, lazy_amp, kink=None):
     """close() with a lazily measured amplification factor: a failure is only reported when the error exceeds
     tol x (measured sensitivity of the solve to 1e-9 perturbations); sensitivities above 1e4 are inconclusive (skipped)"""
     if err <= tol:
         return ctx.close(name, err, tol, key, detail, cls=cls)
+    if kink is not None and kink():
+        ctx.skip("implicit:start-state-at-a-kink-of-the-operator(one-sided-derivatives-differ)")
+        return True
     amp = lazy_amp()
     if not amp <= 1e4:
         ctx.skip("twin:unstable-configuration(amplification>1e4)")
@@ -252,7 +278,8 @@ def reflection(ctx, rng, idx):
         if i in odd_components(spec.mname):      # momentum-like: scale by density * wave speed
             sc = max(sc, np.max(np.abs(f.data[0])) * (fs[1] / fs[0] if len(fs) > 1 else 1.0))
         _judge_twin(ctx, cls, np.max(np.abs(e1.data[i] - d2[i])) / sc, tol, "reflection/solve-not-mirror-image/%s/%s" % ("implicit" if implicit else "explicit", tag),
-                    {"eq": i, "integrator": iname, "max diff": np.max(np.abs(e1.data[i] - d2[i]))}, cls, lambda: _amp())
+                    {"eq": i, "integrator": iname, "max diff": np.max(np.abs(e1.data[i] - d2[i]))}, cls, lambda: _amp(),
+                    kink=(lambda: _at_a_kink(disc, f)) if implicit else None)
     ctx.info.setdefault("bc_types", {})
     for t in (spec.bcL["type"], spec.bcR["type"]):
         ctx.info["bc_types"][t] = ctx.info["bc_types"].get(t, 0) + 1
